@@ -7,7 +7,7 @@ from . import vallib as V
 PROPERTY = "C03"
 DRIVER = "TraitsVerif/Driver/Val.lean"
 PROPS_MODULES = ["TraitsVerif.Props.C03"]
-TRANSLATORS = ["validate_tables", "cvalidators"]
+TRANSLATORS = ["validate_tables", "cvalidators", "pyvalidators"]
 RULE = ("every trait type of the option grid (%d trait terms: fast classes, Base* classes, float/int Range with "
         "bounds in {None,-1,0,2} x exclude flags, Enum/Map collections, Tuple shapes, Instance/Type/This/Callable "
         "options, String, Prefix*, the legacy Trait*() handlers, some compounds) x the value lattice (%d values); "
